@@ -69,6 +69,8 @@ class BreakEx(Exception):
 class ReturnEx(Exception):
     def __init__(self, value):
         self.value = value
+class ContinueEx(Exception):
+    pass
 class RustPanic(Exception):
     def __init__(self, file, line, what):
         self.file, self.line, self.what = file, line, what
@@ -480,6 +482,8 @@ class Interp(object):
                 self.exec_block(blk, env)
             except BreakEx as b:
                 return b.value if b.value is not None else ()
+            except ContinueEx:
+                pass
             n += 1
 
     def ev_for(self, e, env):
@@ -498,7 +502,12 @@ class Interp(object):
                 self.exec_block(blk, env + [scope])
             except BreakEx:
                 break
+            except ContinueEx:
+                continue
         return ()
+
+    def ev_continue(self, e, env):
+        raise ContinueEx()
 
     def ev_break(self, e, env):
         raise BreakEx(self.eval(e[1], env) if e[1] is not None else None)
